@@ -337,14 +337,17 @@ func c14R1Do(c *Ctx, m *c14Merge) {
 		// the argument is m.items as read after the window was closed
 		okArg := len(rc.Common().Args) == 1 && len(commits) > 0
 		if okArg {
-			ls := V.Leaves(rc.Common().Args[0])
-			okArg = len(ls) > 0
-			for _, l := range ls {
-				ld, isLd := l.(*ssa.UnOp)
-				if !isLd || !c14IsLoadOfField(ld, c14TMerge, c14N.items) || !V.MustPass(ld, newCut().Instr(commits...)) {
-					okArg = false
+			n := 0
+			for _, cx := range V.byFn[rc.Parent()] {
+				for _, l := range V.LeavesIn(rc.Common().Args[0], cx) {
+					n++
+					ld, isLd := l.V.(*ssa.UnOp)
+					if !isLd || ld.Op != token.MUL || V.PathIn(ld.X, l.Ctx) != c14P(c14N.items) || !V.MustPassLI(c14LI{ld, l.Ctx}, newCut().Instr(commits...)) {
+						okArg = false
+					}
 				}
 			}
+			okArg = okArg && n > 0
 		}
 		c.Check(R, key+"|gets-committed-items", rc.Pos(), okArg,
 			ifelse(okArg, "resolve receives m.items as read after the window was closed (committed = true)", "resolve is not given the batch's items read after the window was closed: changes batched by concurrent callers are dropped, or the slice is still being appended to"))
@@ -500,627 +503,59 @@ func c14R1Do(c *Ctx, m *c14Merge) {
 	}
 }
 
-// c14Lin evaluates v as a*L+b where L = len(<load of Merge.items>).
-func c14Lin(V *c14View, v ssa.Value, depth int) (a, b int64, ok bool) {
-	if depth > 6 {
-		return 0, 0, false
-	}
-	rs := V.Leaves(v)
-	if len(rs) != 1 {
-		return 0, 0, false
-	}
-	switch u := rs[0].(type) {
-	case *ssa.Const:
-		if k, isInt := constInt(u); isInt {
-			return 0, k, true
-		}
-	case *ssa.Call:
-		if CalleeName(u) == "builtin:len" {
-			x := u.Call.Args[0]
-			if V.IsLoadOfField(x, c14TMerge, c14N.items) {
-				return 1, 0, true
-			}
-			xs := V.Leaves(x)
-			if len(xs) != 1 {
-				return 0, 0, false
-			}
-			if sl, isSl := xs[0].(*ssa.Slice); isSl && sl.Max == nil && V.IsLoadOfField(sl.X, c14TMerge, c14N.items) {
-				var lo, hi int64
-				hiA := int64(1)
-				if sl.Low != nil {
-					la, lb, okL := c14Lin(V, sl.Low, depth+1)
-					if !okL || la != 0 {
-						return 0, 0, false
-					}
-					lo = lb
-				}
-				if sl.High != nil {
-					ha, hb, okH := c14Lin(V, sl.High, depth+1)
-					if !okH {
-						return 0, 0, false
-					}
-					hiA, hi = ha, hb
-				}
-				return hiA, hi - lo, true
-			}
-		}
-	case *ssa.BinOp:
-		xa, xb, ok1 := c14Lin(V, u.X, depth+1)
-		ya, yb, ok2 := c14Lin(V, u.Y, depth+1)
-		if ok1 && ok2 {
-			switch u.Op {
-			case token.ADD:
-				return xa + ya, xb + yb, true
-			case token.SUB:
-				return xa - ya, xb - yb, true
-			}
-		}
-	}
-	return 0, 0, false
-}
-
-// c14TripCount returns the number of iterations of l as a*L+b for the
-// recognised counting-loop shapes: a counter phi with step ±1 compared with a
-// loop-invariant bound (condition at the header, or `for { if …  break }` at
-// the top of the body), or a range over (a slice of) items / an integer.
-func c14TripCount(V *c14View, l *Loop) (a, b int64, ok bool, why string) {
-	if _, _, _, _, isRange := l.RangeIndex(); isRange {
-		h := l.Header
-		ifi := h.Instrs[len(h.Instrs)-1].(*ssa.If)
-		ln := ifi.Cond.(*ssa.BinOp).Y
-		a, b, ok = c14Lin(V, ln, 0)
-		return a, b, ok, "range loop"
-	}
-	h := l.Header
-	// the block holding the loop condition: the header, or (for{…break}) the
-	// unique block of the loop that has an exit edge
-	cb := h
-	if _, isIf := h.Instrs[len(h.Instrs)-1].(*ssa.If); !isIf {
-		cb = nil
-		for _, e := range l.Exits {
-			if cb != nil && cb != e.From {
-				return 0, 0, false, "several exits"
-			}
-			cb = e.From
-		}
-		if cb == nil {
-			return 0, 0, false, "no exit condition"
-		}
-	}
-	ifi, isIf := cb.Instrs[len(cb.Instrs)-1].(*ssa.If)
-	if !isIf {
-		return 0, 0, false, "loop exit is not a condition"
-	}
-	cond, t, f := ifEdges(ifi)
-	bo, isBin := cond.(*ssa.BinOp)
-	if !isBin {
-		return 0, 0, false, "loop condition is not a comparison"
-	}
-	op := bo.Op
-	var phi *ssa.Phi
-	var bound ssa.Value
-	if p, isPhi := bo.X.(*ssa.Phi); isPhi && p.Block() == h {
-		phi, bound = p, bo.Y
-	} else if p, isPhi := bo.Y.(*ssa.Phi); isPhi && p.Block() == h {
-		phi, bound = p, bo.X
-		op = map[token.Token]token.Token{token.LSS: token.GTR, token.GTR: token.LSS, token.LEQ: token.GEQ, token.GEQ: token.LEQ, token.NEQ: token.NEQ, token.EQL: token.EQL}[op]
-	} else {
-		return 0, 0, false, "loop condition does not test a loop counter"
-	}
-	switch {
-	case l.Blocks[t.To] && !l.Blocks[f.To]:
-	case l.Blocks[f.To] && !l.Blocks[t.To]:
-		op = map[token.Token]token.Token{token.LSS: token.GEQ, token.GTR: token.LEQ, token.LEQ: token.GTR, token.GEQ: token.LSS, token.NEQ: token.EQL, token.EQL: token.NEQ}[op]
-	default:
-		return 0, 0, false, "loop condition does not separate body and exit"
-	}
-	var init ssa.Value
-	step := int64(0)
-	for i, e := range phi.Edges {
-		if !l.Blocks[h.Preds[i]] {
-			if init != nil {
-				return 0, 0, false, "counter has several initial values"
-			}
-			init = e
-			continue
-		}
-		nb, isBin := e.(*ssa.BinOp)
-		if !isBin {
-			return 0, 0, false, "counter update is not ±1"
-		}
-		k, isK := constInt(nb.Y)
-		if nb.X != ssa.Value(phi) || !isK || k != 1 || (nb.Op != token.ADD && nb.Op != token.SUB) {
-			return 0, 0, false, "counter update is not ±1"
-		}
-		s := int64(1)
-		if nb.Op == token.SUB {
-			s = -1
-		}
-		if step != 0 && step != s {
-			return 0, 0, false, "counter moves in both directions"
-		}
-		step = s
-	}
-	if init == nil || step == 0 {
-		return 0, 0, false, "counter shape not recognised"
-	}
-	ia, ib, ok1 := c14Lin(V, init, 0)
-	ba, bb, ok2 := c14Lin(V, bound, 0)
-	if !ok1 || !ok2 {
-		return 0, 0, false, "counter start/bound is not an affine function of len(items)"
-	}
-	switch {
-	case step == 1 && (op == token.LSS || op == token.NEQ):
-		return ba - ia, bb - ib, true, ""
-	case step == 1 && op == token.LEQ:
-		return ba - ia, bb - ib + 1, true, ""
-	case step == -1 && (op == token.GTR || op == token.NEQ):
-		return ia - ba, ib - bb, true, ""
-	case step == -1 && op == token.GEQ:
-		return ia - ba, ib - bb + 1, true, ""
-	}
-	return 0, 0, false, "comparison direction does not match the counter direction"
-}
-
-// c14LitField: v is (a copy of) a struct literal; returns the values stored
-// into its field `field`.  Looks through helper parameters.
-func c14LitField(V *c14View, v ssa.Value, field string) (vals []ssa.Value, ok bool) {
-	ls := V.Leaves(v)
-	if len(ls) == 0 {
-		return nil, false
-	}
-	for _, l := range ls {
-		vs, isLit := c14StructLitField(l, field)
-		if !isLit {
-			return nil, false
-		}
-		vals = append(vals, vs...)
-	}
-	return vals, true
-}
-
-func c14R1Complete(c *Ctx, m *c14Merge) {
-	const R = "C14.R1.merge-protocol"
-	F, V := m.Complete, m.VComplete
-	fn := FnName(F)
-	if len(F.Params) != 2 {
-		c.LostAnchor(R, fn+": (receiver, err) parameters")
-		return
-	}
-	errP := F.Params[1]
-	errAl := V.Aliases(errP)
-	nilE, nonNilE := V.NilTests(errAl)
-	if !c.Check(R, fn+"|tests-the-error", F.Pos(), len(nilE) > 0, "complete branches on err == nil") {
-		return
-	}
-	isStatus := func(ch ssa.Value) bool { return V.IsLoadOfField(ch, c14TMerge, c14N.status) }
-	// success: close(m.status)
-	var closes []ssa.CallInstruction
-	for _, cl := range V.CallsTo("builtin:close") {
-		if isStatus(cl.Common().Args[0]) {
-			closes = append(closes, cl)
-		}
-	}
-	okClose := len(closes) > 0
-	for _, cl := range closes {
-		if !V.MustPass(cl.(ssa.Instruction), newCut().Edges(nilE...)) {
-			okClose = false
-		}
-	}
-	c.Check(R, fn+"|close-only-on-success", F.Pos(), okClose,
-		ifelse(okClose, "close(m.status) is reached only on the err==nil edge", "the status channel can be closed although the batch failed: waiting callers return nil for an update that was not applied"))
-	okAll := okClose
-	for _, e := range nilE {
-		if V.ExitFromEdge(e, newCut().Calls(closes)) {
-			okAll = false
-		}
-	}
-	c.Check(R, fn+"|close-on-every-success-path", F.Pos(), okAll,
-		ifelse(okAll, "on success every path closes the status channel", "a success path does not close the status channel: the waiting callers of this batch park forever"))
-	// classify sends
-	var failSends, mainSends []*ssa.Send
-	for _, s := range V.Sends() {
-		errVals, isLit := c14LitField(V, s.X, c14N.err)
-		mainVals, _ := c14LitField(V, s.X, c14N.main)
-		isMain := false
-		for _, v := range mainVals {
-			if b, ok := c14ConstBool(v); ok && b {
-				isMain = true
-			} else {
-				isLit = false
-			}
-		}
-		isFail := false
-		for _, v := range errVals {
-			for _, l := range V.Leaves(v) {
-				if l == ssa.Value(errP) {
-					isFail = true
-				}
-			}
-		}
-		switch {
-		case isLit && isMain && !isFail:
-			mainSends = append(mainSends, s)
-		case isLit && isFail && !isMain:
-			failSends = append(failSends, s)
-		default:
-			c.Undecided(R, fn+"|send", s.Pos(), "a send in complete() that is neither mergeStatus{err: err} nor mergeStatus{main: true}: shape not recognised")
-		}
-	}
-	// failure notices: exactly len(items)-1, on the old status channel, only on failure
-	if len(failSends) == 0 {
-		c.Violation(R, fn+"|failure-notices", F.Pos(), "complete() never sends the batch error to the waiting callers")
-	}
-	for i, s := range failSends {
-		key := fmt.Sprintf("%s|failure-notice#%d", fn, i+1)
-		okEdge := len(nonNilE) > 0 && V.MustPass(s, newCut().Edges(nonNilE...))
-		c.Check(R, key+"|only-on-failure", s.Pos(), okEdge, "the failure notice is sent only on the err!=nil edge")
-		okCh := isStatus(s.Chan)
-		c.Check(R, key+"|on-status-channel", s.Pos(), okCh, ifelse(okCh, "sent on m.status", "the failure notice is not sent on the batch's status channel"))
-		var in []*Loop
-		for _, l := range Loops(s.Parent()) {
-			if l.Contains(s) {
-				in = append(in, l)
-			}
-		}
-		// a helper that sends once, called from a loop: the loop is the caller's
-		if len(in) == 0 {
-			for _, cx := range V.byFn[s.Parent()] {
-				if call, isCall := cx.site.(*ssa.Call); isCall {
-					for _, l := range Loops(call.Parent()) {
-						if l.Contains(call) {
-							in = append(in, l)
-						}
-					}
-				}
-			}
-		}
-		if len(in) != 1 {
-			c.Violation(R, key+"|count", s.Pos(), fmt.Sprintf("the failure notice is inside %d loops (expected one counting loop of len(items)-1 iterations): some waiting caller parks forever, or the main caller blocks on a send nobody receives", len(in)))
-			continue
-		}
-		l := in[0]
-		a, b, ok, why := c14TripCount(V, l)
-		if !ok {
-			c.Undecided(R, key+"|count", s.Pos(), "cannot determine the number of failure notices: "+why)
-			continue
-		}
-		// exactly one send per iteration: no way round the loop avoids it
-		perIter := true
-		var sendAt ssa.Instruction = s
-		if !l.Contains(s) {
-			for _, cx := range V.byFn[s.Parent()] {
-				if call, isCall := cx.site.(*ssa.Call); isCall && l.Contains(call) {
-					sendAt = call
-				}
-			}
-		}
-		hdr := l.Header.Instrs[0]
-		for _, succ := range l.Header.Succs {
-			if l.Blocks[succ] && reach(succ, 0, hdr, newCut().Instr(sendAt)) {
-				perIter = false
-			}
-		}
-		if sendAt != ssa.Instruction(s) {
-			// inside the helper every path sends
-			h := s.Parent()
-			if c14AnyReturnReachable(h.Blocks[0], newCut().Instr(s)) != nil {
-				perIter = false
-			}
-		}
-		okCount := a == 1 && b == -1 && perIter
-		c.Check(R, key+"|count", s.Pos(), okCount,
-			ifelse(okCount, "exactly len(items)-1 notices: one per waiting caller of the batch",
-				fmt.Sprintf("the loop sends %d*len(items)%+d notices (one per iteration: %v) instead of len(items)-1: a waiting caller parks forever, or the main caller blocks on a send nobody receives and the subject is wedged", a, b, perIter)))
-	}
-	// reopen the window and promote the pending batch
-	storesI := func(ss []*ssa.Store) []ssa.Instruction {
-		var o []ssa.Instruction
-		for _, s := range ss {
-			o = append(o, s)
-		}
-		return o
-	}
-	var reopen []ssa.Instruction
-	for _, s := range V.FieldStores(c14TMerge, c14N.committed) {
-		if b, ok := c14ConstBool(s.Val); ok && !b {
-			reopen = append(reopen, s)
-		} else {
-			c.Violation(R, fn+"|reopens-window", s.Pos(), "complete() stores something else than false into committed")
-		}
-	}
-	okRe := len(reopen) > 0 && !V.ExitFromEntry(newCut().Instr(reopen...))
-	c.Check(R, fn+"|reopens-window", F.Pos(), okRe,
-		ifelse(okRe, "every path stores committed=false", "a path leaves complete() with committed still true: every later change goes to a pending batch that nobody will ever run"))
-	promo := func(dst, src string) (stores []ssa.Instruction, srcLoads []ssa.Instruction, ok bool) {
-		ok = true
-		for _, s := range V.FieldStores(c14TMerge, dst) {
-			if isNilConst(s.Val) {
-				continue
-			}
-			if !V.IsLoadOfField(s.Val, c14TMerge, src) {
-				ok = false
-			}
-			stores = append(stores, s)
-			for _, r := range V.Leaves(s.Val) {
-				if in, isIn := r.(ssa.Instruction); isIn {
-					srcLoads = append(srcLoads, in)
-				}
-			}
-		}
-		if len(stores) == 0 || V.ExitFromEntry(newCut().Instr(stores...)) {
-			ok = false
-		}
-		return
-	}
-	clears := func(field string, after []ssa.Instruction) bool {
-		var cl []ssa.Instruction
-		for _, s := range V.FieldStores(c14TMerge, field) {
-			if !isNilConst(s.Val) {
-				return false
-			}
-			cl = append(cl, s)
-			for _, ld := range after {
-				if V.Reachable(s, ld) {
-					return false
-				}
-			}
-		}
-		return len(cl) > 0 && !V.ExitFromEntry(newCut().Instr(cl...))
-	}
-	_, itemLoads, okI := promo(c14N.items, c14N.pending)
-	c.Check(R, fn+"|promotes-pending-items", F.Pos(), okI, ifelse(okI, "every path stores m.items = m.pending", "the pending items are not promoted to the next batch on every path: changes assigned while the batch ran are lost"))
-	statusStores, statusLoads, okS := promo(c14N.status, c14N.pendingStatus)
-	c.Check(R, fn+"|promotes-pending-status", F.Pos(), okS, ifelse(okS, "every path stores m.status = m.pendingStatus", "the pending status channel is not promoted with its items: the callers of the next batch wait on a channel nobody serves"))
-	okC := clears(c14N.pending, itemLoads) && clears(c14N.pendingStatus, statusLoads)
-	c.Check(R, fn+"|clears-pending", F.Pos(), okC, ifelse(okC, "pending and pendingStatus are reset to nil after they were promoted, on every path", "the pending batch is not cleared after promotion (or cleared before it is read): a batch is run twice or dropped"))
-	// one main token for the promoted batch
-	promoted := map[ssa.Value]bool{}
-	for _, s := range statusStores {
-		for a := range V.Aliases(s.(*ssa.Store).Val) {
-			promoted[a] = true
-		}
-	}
-	for _, ld := range V.FieldLoads(c14TMerge, c14N.status) {
-		if len(statusStores) > 0 && V.MustPass(ld, newCut().Instr(statusStores...)) {
-			for a := range V.Aliases(ld) {
-				promoted[a] = true
-			}
-		}
-	}
-	pNil, pNonNil := V.NilTests(promoted)
-	okTok := len(mainSends) == 1 && len(pNonNil) > 0
-	for _, s := range mainSends {
-		chOK := false
-		for _, l := range V.Leaves(s.Chan) {
-			chOK = promoted[l]
-			if !chOK {
-				break
-			}
-		}
-		if !chOK || !V.MustPass(s, newCut().Edges(pNonNil...)) || !V.MustPass(s, newCut().Instr(statusStores...)) || V.Reachable(s, s) {
-			okTok = false
-		}
-	}
-	if okTok {
-		cu := newCut().Edges(pNil...)
-		for _, s := range mainSends {
-			cu.Instr(s)
-		}
-		if V.ExitFromEntry(cu) {
-			okTok = false
-		}
-	}
-	pos := F.Pos()
-	if len(mainSends) > 0 {
-		pos = mainSends[0].Pos()
-	}
-	c.Check(R, fn+"|one-main-token-for-promoted-batch", pos, okTok,
-		ifelse(okTok, "exactly when a pending batch was promoted, one mergeStatus{main:true} is sent on its channel", "the promoted batch does not receive exactly one main token (none: its callers park forever; two: two updaters of one index run concurrently)"))
-	_ = storesI
-}
-
-func c14R1Assign(c *Ctx, m *c14Merge) {
-	const R = "C14.R1.merge-protocol"
-	F, V := m.Assign, m.VAssign
-	fn := FnName(F)
-	if len(F.Params) != 2 {
-		c.LostAnchor(R, fn+": (receiver, item) parameters")
-		return
-	}
-	item := F.Params[1]
-	cl := map[ssa.Value]bool{}
-	for _, ld := range V.FieldLoads(c14TMerge, c14N.committed) {
-		for a := range V.Aliases(ld) {
-			cl[a] = true
-		}
-	}
-	te, fe := V.BoolTests(cl)
-	if !c.Check(R, fn+"|tests-committed", F.Pos(), len(te) > 0, "assign branches on m.committed") {
-		return
-	}
-	fromItem := func(v ssa.Value) bool {
-		ops := map[ssa.Value]bool{}
-		c16Operands(V, v, ops, 0)
-		return ops[item]
-	}
-	appendStores := func(field string) (out []ssa.Instruction, ok bool) {
-		ok = true
-		for _, s := range V.FieldStores(c14TMerge, field) {
-			calls := V.Leaves(s.Val)
-			if len(calls) != 1 {
-				ok = false
-				continue
-			}
-			call, isCall := calls[0].(*ssa.Call)
-			if !isCall || CalleeName(call) != "builtin:append" {
-				ok = false
-				continue
-			}
-			if !V.IsLoadOfField(call.Call.Args[0], c14TMerge, field) || !fromItem(call.Call.Args[1]) {
-				ok = false
-			}
-			out = append(out, s)
-		}
-		return out, ok && len(out) > 0
-	}
-	itemStores, okI := appendStores(c14N.items)
-	pendStores, okP := appendStores(c14N.pending)
-	okOpen := okI
-	for _, s := range itemStores {
-		if !V.MustPass(s, newCut().Edges(fe...)) {
-			okOpen = false
-		}
-	}
-	for _, e := range fe {
-		if V.ExitFromEdge(e, newCut().Instr(itemStores...)) {
-			okOpen = false
-		}
-	}
-	c.Check(R, fn+"|items-only-while-open", F.Pos(), okOpen,
-		ifelse(okOpen, "m.items = append(m.items, item) happens exactly on the committed==false edge", "assign can append to (or skip) m.items while the batch is committed: the change is missing from the slice being resolved, or the running batch's slice is mutated under the resolver"))
-	okPend := okP
-	for _, s := range pendStores {
-		if !V.MustPass(s, newCut().Edges(te...)) {
-			okPend = false
-		}
-	}
-	for _, e := range te {
-		if V.ExitFromEdge(e, newCut().Instr(pendStores...)) {
-			okPend = false
-		}
-	}
-	c.Check(R, fn+"|pending-while-committed", F.Pos(), okPend,
-		ifelse(okPend, "m.pending = append(m.pending, item) happens exactly on the committed==true edge", "a change arriving while a batch is running is not queued in m.pending on every path: it is lost"))
-	// returned channel matches the batch the item joined
-	okRet := true
-	nRet := 0
-	for _, a := range RetAtoms(F, 0) {
-		if !V.ReachableFromEntry(a.Ret) {
-			continue
-		}
-		nRet++
-		fromT, fromF := false, false
-		var anchor ssa.Instruction = a.Ret
-		if len(a.Edges) > 0 {
-			e := a.Edges[len(a.Edges)-1]
-			anchor = e.From.Instrs[len(e.From.Instrs)-1]
-		} else if a.Store != nil {
-			anchor = a.Store
-		}
-		for _, e := range te {
-			if e.To == anchor.Block() || V.EdgeReach(e, anchor, nil) {
-				fromT = true
-			}
-		}
-		for _, e := range fe {
-			if e.To == anchor.Block() || V.EdgeReach(e, anchor, nil) {
-				fromF = true
-			}
-		}
-		switch {
-		case fromT && !fromF:
-			okRet = okRet && V.IsLoadOfField(a.Val, c14TMerge, c14N.pendingStatus)
-		case fromF && !fromT:
-			okRet = okRet && V.IsLoadOfField(a.Val, c14TMerge, c14N.status)
-		default:
-			okRet = false
-		}
-	}
-	c.Check(R, fn+"|returns-channel-of-joined-batch", F.Pos(), okRet && nRet > 0,
-		ifelse(okRet && nRet > 0, "the committed edge returns m.pendingStatus, the open edge returns m.status", "assign returns the status channel of a batch the item did not join: the caller gets the verdict of the wrong batch"))
-	// channel creation and the single main token
-	mk := func(field string, side []Edge) (ok bool, makes []*ssa.MakeChan) {
-		lds := map[ssa.Value]bool{}
-		for _, ld := range V.FieldLoads(c14TMerge, field) {
-			for a := range V.Aliases(ld) {
-				lds[a] = true
-			}
-		}
-		nilE, _ := V.NilTests(lds)
-		ok = true
-		n := 0
-		for _, s := range V.FieldStores(c14TMerge, field) {
-			ls := V.Leaves(s.Val)
-			var mc *ssa.MakeChan
-			if len(ls) == 1 {
-				mc, _ = ls[0].(*ssa.MakeChan)
-			}
-			if mc == nil {
-				ok = false
-				continue
-			}
-			n++
-			makes = append(makes, mc)
-			if len(nilE) == 0 || !V.MustPass(s, newCut().Edges(nilE...)) || !V.MustPass(s, newCut().Edges(side...)) {
-				ok = false
-			}
-		}
-		return ok && n > 0, makes
-	}
-	okMkS, makesS := mk(c14N.status, fe)
-	c.Check(R, fn+"|status-created-once", F.Pos(), okMkS,
-		ifelse(okMkS, "m.status is created only when it is nil, on the open edge", "m.status can be replaced while callers already wait on it: they park forever"))
-	okMkP, _ := mk(c14N.pendingStatus, te)
-	c.Check(R, fn+"|pending-status-created-once", F.Pos(), okMkP,
-		ifelse(okMkP, "m.pendingStatus is created only when it is nil, on the committed edge", "m.pendingStatus can be replaced while callers already wait on it: they park forever"))
-	okBuf := len(makesS) > 0
-	for _, mc := range makesS {
-		if k, ok := constInt(mc.Size); !ok || k < 1 {
-			okBuf = false
-		}
-	}
-	c.Check(R, fn+"|status-buffered", F.Pos(), okBuf,
-		ifelse(okBuf, "the status channel has capacity >= 1 for the main token sent under the lock", "the status channel is unbuffered: assign blocks on sending the main token while holding the lock (deadlock on first use)"))
-	// main token: exactly on creation of m.status
-	var mainSends []ssa.Instruction
-	okTok := true
-	stLoads := map[ssa.Value]bool{}
-	for _, ld := range V.FieldLoads(c14TMerge, c14N.status) {
-		for a := range V.Aliases(ld) {
-			stLoads[a] = true
-		}
-	}
-	for _, mc := range makesS {
-		for a := range V.Aliases(mc) {
-			stLoads[a] = true
-		}
-	}
-	stNil, _ := V.NilTests(stLoads)
-	for _, s := range V.Sends() {
-		mainVals, isLit := c14LitField(V, s.X, c14N.main)
-		isMain := false
-		for _, v := range mainVals {
-			if b, ok := c14ConstBool(v); ok && b {
-				isMain = true
-			}
-		}
-		if !isLit || !isMain {
-			c.Undecided(R, fn+"|send", s.Pos(), "a send in assign() that is not mergeStatus{main: true}: shape not recognised")
-			continue
-		}
-		mainSends = append(mainSends, s)
-		chOK := len(V.Leaves(s.Chan)) > 0
-		for _, l := range V.Leaves(s.Chan) {
-			if !stLoads[l] {
-				chOK = false
-			}
-		}
-		if !chOK || len(stNil) == 0 || !V.MustPass(s, newCut().Edges(stNil...)) || !V.MustPass(s, newCut().Edges(fe...)) || V.Reachable(s, s) {
-			okTok = false
-		}
-	}
-	okTok = okTok && len(mainSends) > 0
-	for _, e := range stNil {
-		if V.ExitFromEdge(e, newCut().Instr(mainSends...)) {
-			okTok = false
-		}
-	}
-	c.Check(R, fn+"|one-main-token-per-new-batch", F.Pos(), okTok,
-		ifelse(okTok, "exactly when assign creates m.status it sends one mergeStatus{main:true}", "a new batch does not get exactly one main token (none: all its callers park forever; more: two updaters of one index run concurrently and one overwrites the other)"))
-}
-
 // ---------- R2 ----------
+
+type c14Access struct {
+	li    c14LI
+	rel   string // path relative to the Merge receiver
+	write bool
+}
+
+// c14StateAccesses: loads and stores of the guarded Merge state (the window
+// flag, both batches and their members) by the instances of the view.
+func c14StateAccesses(V *c14View) []c14Access {
+	guarded := func(rel string) bool {
+		for _, f := range c14N.mergeFields {
+			if rel == f || strings.HasPrefix(rel, f+".") {
+				return true
+			}
+		}
+		return false
+	}
+	var out []c14Access
+	V.Each(func(li c14LI) {
+		var addr ssa.Value
+		write := false
+		switch x := li.In.(type) {
+		case *ssa.Store:
+			addr, write = x.Addr, true
+		case *ssa.UnOp:
+			if x.Op == token.MUL {
+				addr = x.X
+			}
+		}
+		fa, ok := addr.(*ssa.FieldAddr)
+		if !ok {
+			return
+		}
+		p := V.PathIn(fa, li.Ctx)
+		if !strings.HasPrefix(p, "p0.") || !guarded(p[3:]) {
+			return
+		}
+		out = append(out, c14Access{li, p[3:], write})
+	})
+	return out
+}
+
+// c14HoldsLock: the held set contains the Merge mutex (of this frame or a caller's).
+func c14HoldsLock(h heldSet) bool {
+	for lp, mode := range h {
+		if mode >= modeW && strings.HasSuffix(lp, "."+c14N.lock) {
+			return true
+		}
+	}
+	return false
+}
 
 // c14HeldInView computes the must-hold lock set before every instruction of
 // the view's functions, carrying the set held at a call site into the inlined
@@ -1157,6 +592,12 @@ func c14HeldInView(V *c14View) map[ssa.Instruction]heldSet {
 						ne["P:"+k.fn.Params[i].Name()+p[len(ap):]] = mode
 					}
 				}
+				// a lock of the caller's frame stays held while the callee runs
+				if !strings.HasPrefix(p, "^") {
+					ne["^"+p] = mode
+				} else {
+					ne[p] = mode
+				}
 			}
 			entry[k] = ne
 		}
@@ -1166,8 +607,8 @@ func c14HeldInView(V *c14View) map[ssa.Instruction]heldSet {
 
 func c14R2(c *Ctx, ms []*c14Merge) {
 	const R = "C14.R2.lock-discipline"
-	c.Expect(R, 18)
-	mergeFields := []string{c14N.committed, c14N.items, c14N.status, c14N.pending, c14N.pendingStatus}
+	c.Expect(R, 12)
+	mergeFields := c14N.mergeFields
 	const reason = "complete() reads m.items/m.status before locking: while committed==true (set by commit() before complete() is reached) assign() writes neither, so there is no concurrent writer; the premise is proved by the |premise obligations"
 	pkgFns := c.P.FuncsOfPkg(c14PkgSync)
 	callersOf := func(g *ssa.Function) []*ssa.Function {
@@ -1221,33 +662,30 @@ func c14R2(c *Ctx, ms []*c14Merge) {
 		// the exception, checked on complete with its helpers: writes hold the lock;
 		// unlocked reads are only of items/status and happen before the window is reopened
 		h := c14HeldInView(V)
-		var reopen []*ssa.Store
-		reopen = append(reopen, V.FieldStores(c14TMerge, c14N.committed)...)
+		reopen := V.PathStores(c14P(c14N.committed))
 		okW, okR := true, true
 		detail := ""
-		for _, g := range V.Funcs() {
+		for _, acc := range c14StateAccesses(V) {
+			g := acc.li.In.Parent()
 			if _, isExempt := exempt[FnName(g)]; !isExempt {
-				continue // shared helper: LockCheck covers it with its caller-holds summary
+				continue // shared helper: checked below on Do's view / by LockCheck
 			}
-			for _, a := range fieldAccesses(g, c14TMerge, fields) {
-				lp := accessPath(a.Base) + "." + c14N.lock
-				if h[a.At][lp] >= modeW {
-					continue
-				}
-				if a.Mode == modeW {
-					okW = false
-					detail = fmt.Sprintf("write of Merge.%s at %s without m.lock", a.Field, c.P.Pos(a.At.Pos()))
-					continue
-				}
-				if a.Field != c14N.items && a.Field != c14N.status {
+			if c14HoldsLock(h[acc.li.In]) {
+				continue
+			}
+			if acc.write {
+				okW = false
+				detail = fmt.Sprintf("write of Merge state %s at %s without the lock", acc.rel, c.P.Pos(acc.li.In.Pos()))
+				continue
+			}
+			if acc.rel != c14N.items && acc.rel != c14N.status {
+				okR = false
+				detail = fmt.Sprintf("unlocked read of Merge state %s at %s", acc.rel, c.P.Pos(acc.li.In.Pos()))
+			}
+			for _, st := range reopen {
+				if V.ReachLI(st, acc.li, nil) {
 					okR = false
-					detail = fmt.Sprintf("unlocked read of Merge.%s at %s", a.Field, c.P.Pos(a.At.Pos()))
-				}
-				for _, s := range reopen {
-					if V.Reachable(s, a.At) {
-						okR = false
-						detail = fmt.Sprintf("unlocked read of Merge.%s at %s after the window was reopened", a.Field, c.P.Pos(a.At.Pos()))
-					}
+					detail = fmt.Sprintf("unlocked read of Merge state %s at %s after the window was reopened", acc.rel, c.P.Pos(acc.li.In.Pos()))
 				}
 			}
 		}
@@ -1263,6 +701,28 @@ func c14R2(c *Ctx, ms []*c14Merge) {
 		}
 		c.Check(R, FnName(m.Do)+"|premise:commit-precedes-complete", m.Do.Pos(), okP,
 			ifelse(okP, "every path to complete() has passed commit() (committed==true)", "complete() can run without a preceding commit(): its unlocked reads of m.items/m.status race with assign()"))
+	}
+	// every access of the Merge state reachable from Do (also inside helpers shared by both batches)
+	// holds the lock, except complete's confirmed pre-lock reads
+	for _, m := range ms {
+		V := m.VD
+		h := c14HeldInView(V)
+		ok := true
+		detail := ""
+		n := 0
+		for _, acc := range c14StateAccesses(V) {
+			n++
+			if c14HoldsLock(h[acc.li.In]) {
+				continue
+			}
+			if _, isExempt := exempt[FnName(acc.li.In.Parent())]; isExempt && !acc.write && (acc.rel == c14N.items || acc.rel == c14N.status) {
+				continue
+			}
+			ok = false
+			detail = fmt.Sprintf("%s of Merge state %s at %s (in %s) without the lock", ifelse(acc.write, "write", "read"), acc.rel, c.P.Pos(acc.li.In.Pos()), FnName(acc.li.In.Parent()))
+		}
+		c.Check(R, FnName(m.Do)+"|state-accesses-hold-lock", m.Do.Pos(), ok && n > 0,
+			ifelse(ok && n > 0, fmt.Sprintf("%d accesses of the Merge state run by Do hold the lock (or are complete's pre-lock reads)", n), detail+" — a concurrent Do can observe or corrupt the batch (data race, lost change)"))
 	}
 	// premise 2: writers of items/status are assign (on the open edge, see R1) and complete only
 	allowed := map[*ssa.Function]bool{}
@@ -1282,7 +742,11 @@ func c14R2(c *Ctx, ms []*c14Merge) {
 		if allowed[f] {
 			continue
 		}
-		if len(c14FieldStores(f, c14TMerge, c14N.items))+len(c14FieldStores(f, c14TMerge, c14N.status)) > 0 {
+		nw := 0
+		for _, tf := range c14N.stateFields {
+			nw += len(c14FieldStores(f, tf[0], tf[1]))
+		}
+		if nw > 0 {
 			okW = false
 			detail = FnName(f) + " writes Merge.items/status: the exception for complete()'s unlocked reads no longer holds"
 		}
